@@ -7,6 +7,15 @@ package scheduling
 // (what the C12 / C19 contracts of Requirements.Get, Requirements.Add, OrderByPrice and IsCompatible need).
 //@ pure c6claimOK(nc *NodeClaim) bool = nc != nil && nc.Requirements != nil && scheduling.rsInv(nc.Requirements) && cloudprovider.itsOK(nc.InstanceTypeOptions) && cloudprovider.c6itsReqOK(nc.InstanceTypeOptions)
 
+// ---- C06: the price filter "launch only from instance types strictly cheaper than what is replaced" ----
+// ACTIVE part (stock engine): nothing is added to the option list ([nothingAdded]); each type is priced from its OWN
+// offerings ([pricedFromOwnOfferings]); the minValues floors are validated on the KEPT list under the SAME requirements
+// ([floorsCheckedOnKeptTypes]) and a violation is returned as the error, with no NodeClaim ([minValuesViolationIsAnError],
+// [sameClaimOrNone]); only n.InstanceTypeOptions changes; well-formedness is kept.
+// NOT decidable with the stock engine: the central clause [strictlyCheaper] "every kept instance type has worst-case
+// launch price < maxPrice" - the lo.Filter stub cannot express a predicate that calls functions under contract
+// (warning "closure not expressible, predicate facts omitted"), so a mutant `<=` passes here. The exact contract
+// ([strictlyCheaper], [everyCheaperOneKept], closure [exact]) is in ../../../../full/ and discharges with ../../../../engine_patch/.
 //@ func (*NodeClaim).RemoveInstanceTypeOptionsByPriceAndMinValues
 //@   prop C06
 //@   requires [wf] c6claimOK(n) && scheduling.rsInv(reqs)
